@@ -42,6 +42,7 @@ Next ==
        [] Ev.ev = "srcend" -> srcSt' = [srcSt EXCEPT ![Ev.i + 1] = 1] /\ Un(<<kind, n, started, got, closedIn, demand, returned, eof, srcClosed, pend, closed, cancelled, gotD>>)
        [] Ev.ev = "srcerr" -> srcSt' = [srcSt EXCEPT ![Ev.i + 1] = 2] /\ Un(<<kind, n, started, got, closedIn, demand, returned, eof, srcClosed, pend, closed, cancelled, gotD>>)
        [] Ev.ev = "srcclose" -> srcClosed' = [srcClosed EXCEPT ![Ev.i + 1] = @ + 1] /\ Un(<<kind, n, started, got, closedIn, demand, returned, eof, srcSt, pend, closed, cancelled, gotD>>)
+       [] Ev.ev = "srcviol" -> FALSE        \* the instrumented source saw Next after Close / a second Close / overlapping calls (C09)
        [] Ev.ev = "cancel" -> cancelled' = cancelled \cup {Ev.ctx} /\ Un(<<kind, n, started, got, closedIn, demand, returned, eof, srcSt, srcClosed, pend, closed, gotD>>)
        [] Ev.ev \in {"item", "leak", "adv"} -> Un(<<kind, n, started, got, closedIn, demand, returned, eof, srcSt, srcClosed, pend, closed, cancelled, gotD>>)
        [] Ev.ev = "call" -> /\ pend' = [i \in Ids \cup {Ev.id} |-> IF i = Ev.id THEN [op |-> Ev.op, ctx |-> Ev.ctx] ELSE pend[i]]
